@@ -21,7 +21,7 @@ Definition round15 (x : num) : num :=
 
 (** mathematics comes back as the serialisation of each math element followed by a newline *)
 Definition canon_math (s : string) : string :=
-  fold_left (fun acc k => (acc ++ math_text E k ++ String c_lf EmptyString)%string) (math_kids E s) "".
+  fold_left (fun acc k => (acc ++ math_text E k ++ String c_lf EmptyString)%string) (math_kids E ident s) "".
 
 Definition canon_unitdef (d : unitdef) : unitdef :=
   {| ud_ref := ud_ref d; ud_prefix := ud_prefix d; ud_exp := round15 (ud_exp d); ud_mult := round15 (ud_mult d); ud_id := ud_id d |}.
@@ -76,13 +76,25 @@ Fixpoint ns_clean (x : xml) : bool :=
   | _ => true
   end.
 
+(** attribute values inside a math tree are XML characters (they came out of an XML parser) *)
+Fixpoint attrs_no_ctrl (x : xml) : bool :=
+  match x with
+  | Elem _ _ attrs ks =>
+    forallb (fun a => no_ctrl (a_val a)) attrs
+    && (fix go (l : list xml) : bool := match l with [] => true | k :: r => attrs_no_ctrl k && go r end) ks
+  | _ => true
+  end.
+
 (** the string is empty, or printMath accepts it and what it yields are math elements *)
 Definition math_ok (s : string) : bool :=
   negb (nonempty s)
   || match norm_math E s with
-     | Some xs => forallb (fun x => is_mathml "math" x && ns_clean x) xs
+     | Some xs => forallb (fun x => is_mathml "math" x && ns_clean x && attrs_no_ctrl x) xs
      | None => false
      end.
+
+(** the string yields at least one element (so that the value block is written again after a round trip) *)
+Definition has_math (s : string) : bool := match math_kids E ident s with [] => false | _ => true end.
 
 Definition unitdef_ok (fixed : bool) (d : unitdef) : bool :=
   str_ok fixed (ud_ref d) && str_ok fixed (ud_prefix d) && str_ok fixed (ud_id d)
@@ -121,7 +133,7 @@ Definition reset_ok (fixed : bool) (vs : list variable) (r : reset) : bool :=
   str_ok fixed (r_id r) && str_ok fixed (r_tv_id r) && str_ok fixed (r_rv_id r)
   && match r_order r with Some z => order_ok z | None => false end
   && vref_ok fixed vs (r_var r) && vref_ok fixed vs (r_test r)
-  && (nonempty (r_tv r) || nonempty (r_tv_id r)) && (nonempty (r_rv r) || nonempty (r_rv_id r))
+  && (has_math (r_tv r) || nonempty (r_tv_id r)) && (has_math (r_rv r) || nonempty (r_rv_id r))
   && math_ok (r_tv r) && math_ok (r_rv r).
 
 Fixpoint names_distinct (l : list string) : bool :=
